@@ -6,6 +6,7 @@
 ID=$1; SRC=$2; shift 2; OTHERS="$@"
 V=$(cd "$(dirname "$0")/.." && pwd)
 N=${SEEDED_NAME:-$ID}
+WT=${SEEDED_WT:-/tmp/wt/$N}
 DST=$V/seeded/$N
 EV=/tmp/ev/$N
 mkdir -p $DST /tmp/ev
@@ -15,11 +16,11 @@ git -C /repo worktree remove --force $EV 2>/dev/null
 git -C /repo worktree add -q --detach $EV HEAD || exit 2
 DEMO=$(ls $DST/demo*.py | head -1)
 run_demo() { (cd $EV && case "$DEMO" in *_test.py) PYTHONPATH=$EV timeout 600 /venv/bin/python -m pytest -q -p no:cacheprovider "$DEMO" >/tmp/ev/$N.demo.out 2>&1;; *) PYTHONPATH=$EV timeout 600 /venv/bin/python "$DEMO" >/tmp/ev/$N.demo.out 2>&1;; esac; echo $?); }
-sed -i "s#/tmp/wt/$ID#$EV#g" $DST/demo*.py 2>/dev/null
+sed -i "s#$WT\\b#$EV#g" $DST/demo*.py 2>/dev/null
 clean=$(run_demo)
 (cd $EV && git apply $DST/patch.diff) || { echo "PATCH DOES NOT APPLY"; git -C /repo worktree remove --force $EV; exit 2; }
 mut=$(run_demo)
-sed -i "s#$EV#/tmp/wt/$ID#g" $DST/demo*.py 2>/dev/null
+sed -i "s#$EV\\b#$WT#g" $DST/demo*.py 2>/dev/null
 tests=$(cd $EV && timeout 1500 /venv/bin/python -m pytest -q -p no:cacheprovider --timeout=900 2>&1 | tail -1)
 echo "demo without change: exit $clean ; with change: exit $mut ; suite with change: $tests"
 res=""
